@@ -62,6 +62,12 @@ def gen(rng, tier):
     clients = [c for c in clients if c] or [[["submit", 0]]]
     spec = {"base": base, "layers": layers, "subs": subs, "clients": clients, "aux": False,
             "final_shutdown": rng.choice([None, None, True, False])}
+    if layers[-1]["t"] == "cos" and spec["final_shutdown"] is not None and base["kind"] != "sync" and rng.random() < 0.6:
+        # leave something for the sweep: a submission that is still running / queued at shutdown
+        for k in list(subs)[:rng.choice([1, 2])]:
+            subs[k]["dur"] = 500.0
+            subs[k]["script"] = ["ok"]
+        spec["shutdown_early"] = True
     bound = 0.0
     for s in subs:
         (_, _, work, slp) = model.eval_sub(spec, int(s))
@@ -78,7 +84,7 @@ def run(spec, env):
     sr.build()
     tap_submits(env, sr.chain)
     sr.run_clients()
-    env.sleep(spec["settle"])
+    env.sleep(2.0 if spec.get("shutdown_early") else spec["settle"])
     sr.finals()
     if spec["final_shutdown"] is not None:
         sr.ex.shutdown(spec["final_shutdown"])
@@ -113,10 +119,9 @@ def check(spec, env):
                         "msg": "gauge %s%r went down to %r; layers %s" % (name, k[1:], mn, types)})
         if name.endswith(("_time", "_delay")) and v < 0:
             out.append({"oracle": "negative-sum", "sig": "sum-negative|%s" % name, "msg": "%s%r = %r" % (name, k[1:], v)})
-    if not all_done:
-        return out   # something is still pending (shut down mid-way): gauges are allowed to be non-zero
-    # (a)/(d) at quiescence nothing is pending or queued
-    for k, (v, mn) in sorted(snap.items()):
+    # (a)/(d) at quiescence nothing is pending or queued (if something is still pending - work
+    # left running at a final shutdown - these gauges are allowed to be non-zero)
+    for k, (v, mn) in (sorted(snap.items()) if all_done else []):
         name = k[0]
         if name in ("more_executors_future_inprogress", "more_executors_retry_queue", "more_executors_throttle_queue") and v != 0:
             out.append({"oracle": "gauge-drift", "sig": "gauge-nonzero-at-quiescence|%s|%s" % (name.replace("more_executors_", ""), k[1]),
@@ -193,6 +198,42 @@ def check(spec, env):
         if v != want:
             out.append({"oracle": "retry-counter", "sig": "retry-total-mismatch",
                         "msg": "retry_total{executor=%s} = %r but the RetryExecutor re-submitted to its delegate %d times; layers %s" % (cur, v, want, types)})
+    # timeout_total: every cancelled top-level future was cancelled by exactly one successful
+    # cancel() - the client's, the timeout thread's or the shutdown sweep's
+    touts = [i for i, L in enumerate(spec["layers"]) if L["t"] == "timeout"]
+    sd_seq = [e[0] for e in log if e[3] == "shutdown-done"]
+    first_finals = {}
+    for e in log:
+        if e[3] == "final" and (not sd_seq or e[0] < sd_seq[0]):
+            first_finals[e[4]] = e[5][0]
+    if len(touts) == 1 and all(L["t"] == "cos" for L in spec["layers"][touts[0] + 1:]):
+        i = touts[0]
+        cur = bname if bk in ("sync", "pool") else "default"
+        for L in spec["layers"][:i + 1]:
+            if "name" in L:
+                cur = L["name"]
+        client_true = set(e[5] for e in log if e[3] == "op-ret" and e[4] == "cancel" and e[6] is True)
+        # before any shutdown sweep: cancelled futures not cancelled by a client were timed out -
+        # unless an inner layer's future was cancelled from below, which only a second timeout layer could do
+        # (a client cancel() also returns True on a future the timeout already cancelled, so a
+        # future both parties "cancelled" may belong to either: the count is bracketed)
+        lo = sum(1 for s_, st_ in first_finals.items() if st_ == "cancelled" and s_ not in client_true)
+        hi = sum(1 for s_, st_ in first_finals.items() if st_ == "cancelled")
+        v = snap.get(("more_executors_timeout", cur), (0, 0))[0]
+        if not (lo <= v <= hi):
+            out.append({"oracle": "timeout-counter", "sig": "timeout-total-mismatch",
+                        "msg": "timeout{executor=%s} = %r but between %d and %d top-level futures were cancelled by the timeout; layers %s" % (cur, v, lo, hi, types)})
+    # shutdown_cancel_total: futures the final shutdown() of a cancel-on-shutdown top layer cancelled
+    if spec["layers"] and spec["layers"][-1]["t"] == "cos" and shut and sum(1 for L in spec["layers"] if L["t"] == "cos") == 1:
+        cur = bname if bk in ("sync", "pool") else "default"
+        for L in spec["layers"]:
+            if "name" in L:
+                cur = L["name"]
+        want = sum(1 for s_, st_ in finals.items() if st_[0] == "cancelled" and first_finals.get(s_) != "cancelled")
+        v = snap.get(("more_executors_shutdown_cancel", cur), (0, 0))[0]
+        if v != want:
+            out.append({"oracle": "shutdown-cancel-counter", "sig": "shutdown-cancel-total-mismatch",
+                        "msg": "shutdown_cancel{executor=%s} = %r but %d futures were cancelled by the shutdown; layers %s" % (cur, v, want, types)})
     polls = [i for i, L in enumerate(spec["layers"]) if L["t"] == "poll"]
     if len(polls) == 1:
         i = polls[0]
